@@ -34,6 +34,13 @@ def probes():
     ps = []
     ps.append(("C11-assert-adds-position", [Return(Call(Var("pcall"), Fn([], False, [SCall(Call(Var("assert"), FalseE(), Str("msg")))])))], []))
     ps.append(("C11-pow-error-line", [Return(Call(Var("pcall"), Fn([], False, [Local(["z"], [Bin("pow", Nil(), Int(1))]), Local(["y"], [Int(2)])])))], []))
+    CO = lambda f, *a: Call(Fld(Var("coroutine"), f), *a)
+    ps.append(("C11-xpcall-handler-sees-coroutine-error", [
+        Local(["co"], [CO("create", Fn([], False, [SCall(Call(Var("error"), Tab()))]))]),
+        Local(["ok", "e"], [Call(Var("xpcall"), Fn([], False, [Local(["r1", "r2"], [CO("resume", Var("co"))]), emit(Str("resumed"), Var("r1"), Call(Var("type"), Var("r2"))),
+                                                              Return(Str("fine"))]),
+                                 Fn(["m"], False, [emit(Str("handler")), Return(Str("H"))]))]),
+        emit(Var("ok"), Var("e"))], []))
     return ps
 
 
@@ -78,6 +85,7 @@ def run(tier, seed):
     if oracle is None:
         ck.violation("oracle (extracted LuaCore) does not build", {"kind": "build"}, no_input=True)
         return ck.finish("n/a", TRUSTED, [])
+    ck.log("obligations, harness and oracle ready")
 
     corpus = base.load_corpus(PID)
     if corpus:
@@ -120,7 +128,7 @@ def run(tier, seed):
     elif k:
         ck.notes.append("known finding C11-xpcall-handler-sees-coroutine-error: the witness no longer fails (repaired?)")
 
-    nprog = 1300 if tier == "quick" else 25000
+    nprog = int(vlib.os.environ.get("VERIF_NPROG", 0)) or (1000 if tier == "quick" else 25000)
     total = {"same": 0, "diff": 0, "known": 0, "discarded": 0, "raised_and_caught_scenarios": 0, "uncaught_programs": 0}
     cases, meta, feats, kinds = gen_cases(ck, nprog)
     res = luacore.run_both(ck, cases, gvh, oracle)
@@ -129,7 +137,10 @@ def run(tier, seed):
     for c, m, (g, o) in zip(cases, meta, res):
         ost, gst = o.split(" ")[0], g.split(" ")[0]
         ck.count("status:" + gst)
-        if ost.startswith(("unsupported", "fuel", "HANG")) and not gst.startswith(("gopanic", "CRASH")):
+        if gst == "SKIPPED":
+            ck.count("skipped-after-many-hangs")
+            continue
+        if ost.startswith(("unsupported", "fuel", "HANG")) and not gst.startswith(("gopanic", "CRASH", "HANG")):
             total["discarded"] += 1
             ck.count("discarded:" + ost)
             continue
@@ -150,7 +161,7 @@ def run(tier, seed):
         reported.add(m)
         nviol += 1
         if nviol <= 3:
-            base.report(ck, c, g, o, gvh, oracle, what="error scenario program")
+            base.report(ck, c, g, o, gvh, oracle, what="error scenario program", budget=(120 if nviol == 1 else 25))
     total["raised_and_caught_scenarios"] = sum(v for k, v in feats.items() if k.startswith("catch:"))
     for i in (0, 2, 4):
         if i < len(cases):
@@ -174,8 +185,8 @@ def run(tier, seed):
              "varargs, metamethod, string ops, further pcalls) and in 1 of 3 programs a final uncaught error; each program in 2 renderings (line numbers differ). "
              "Compared with LuaCore: trace, results, error value or class+position. non-trivial = non-empty trace; distinct by S-expression.",
         trusted_base=TRUSTED,
-        assumptions=["errors inside message handlers, inside coroutines and inside to-be-closed scopes are not generated (coroutines/<close> not yet in the extracted model); "
-                     "the coroutine/xpcall interaction is covered by a fixed probe with a hand-derived expected result",
+        assumptions=["errors inside message handlers are not generated (the manual leaves them open); coroutine.resume and coroutine.wrap are among the catch constructs, "
+                     "to-be-closed scopes appear through the random statements; the coroutine/xpcall interaction is a fixed probe (oracle result + hand-derived expected result)",
                      "error(msg, 2) is only generated where the caller is Lua code on a single line"])
 
 
